@@ -117,3 +117,14 @@ PROPS["C17"] = {"units": [
     plain_unit("regress", "ctxio", "^TestRegressC17", overlay="full"),
     rapid_unit("schedules", "ctxio", "^TestC17Schedules$", 1200, 16 * 10000, overlay="full"),
 ]}
+
+PROPS["C12"] = {"units": [
+    plain_unit("regress", "udpl", "^TestRegressC12", overlay="full"),
+    rapid_unit("schedules", "udpl", "^TestC12Schedules$", 600, 16 * 5000, overlay="full"),
+]}
+
+PROPS["C11"] = {"units": [
+    plain_unit("regress", "udpl", "^TestRegressC11", overlay="full"),
+    rapid_unit("sequential", "udpl", "^TestC11Sequential$", 600, 16 * 6000, overlay="full"),
+    rapid_unit("concurrent", "udpl", "^TestC11Concurrent$", 150, 16 * 1500, overlay="full"),
+]}
